@@ -300,6 +300,14 @@ def run(ctx: Ctx) -> int:
         ok = not reord
         ctx.oblige("C15.d", ok, reord[0] if reord else fn_, "the source keys reach compute_fn in the order they were given" if ok else f"`{src(reord[0], 50)}` reorders / de-duplicates the source keys: compute_fn receives its positional arguments in a different order than the link declares (silently wrong value for non-commutative functions)", fn=fn_, construct="source order preserved")
 
+    # which links are applied when: get_link_actions selects by the VALUE of apply_on ("parse" / "instantiate" are
+    # strings the user passes in; two equal strings need not be the same object)
+    gla = ctx.func("_link_arguments:get_link_actions")
+    apc = [n_ for n_ in ast.walk(gla) if isinstance(n_, ast.Compare) and len(n_.ops) == 1 and any("apply_on" in ast.unparse(x) for x in [n_.left] + n_.comparators)]
+    ctx.need(apc, "get_link_actions: comparison on apply_on")
+    bad_c = [n_ for n_ in apc if not isinstance(n_.ops[0], (ast.Eq, ast.NotEq))]
+    ctx.oblige("C15.a", not bad_c, bad_c[0] if bad_c else apc[0], "links are selected by the value of apply_on" if not bad_c else f"`{ast.unparse(bad_c[0])}` compares strings by identity: a link declared with an apply_on string built at run time (read from a settings file) is accepted - its target is replaced and dropped from the required keys - but never selected for application", fn=gla, construct="apply_on compared by value")
+
     # ---------------- C15.f ----------------------------------------------------
     # "the target of a link is not required from the user": _add_signature_parameter turns a required parameter that
     # is a link target into an optional one.  Every decision that depends on `is_required` (fallback type for untyped
